@@ -200,6 +200,7 @@ def run_suite(suite, seed, count, tier, timeout=1500):
             if a != b:
                 if len(res["disagreements"]) < 25:
                     res["disagreements"].append({"request": rq, "implementation": a, "model": b})
+                res.setdefault("disagreeing_requests", []).append(rq)
                 res["n_disagreements"] = res.get("n_disagreements", 0) + 1
         step = max(1, len(reqs) // 5)
         res["samples"] = [{"request": reqs[i][:400], "response": resps[i][:400]} for i in range(0, len(reqs), step)][:5]
@@ -295,7 +296,25 @@ def check(pid, tier, seed):
                             failing.append({"raw": js})
     known = [k for k in load_known() if k.get("property") == pid and k.get("status") == "known"]
     known_sigs = {k["signature"]: k for k in known}
+    # A recorded finding is a failure of the UNCHANGED code, which the model reproduces.  A failure
+    # that carries a known signature but occurs on an input where implementation and model no longer
+    # agree is therefore not the recorded one: it counts as new.
+    dis_reqs = [rq for s in suites for rq in s.get("disagreeing_requests", [])]
+
+    def on_disagreeing_input(f):
+        rp = f.get("replay") if isinstance(f, dict) else None
+        if not isinstance(rp, dict) or not dis_reqs:
+            return False
+        keys = [v for k, v in rp.items() if k in ("tree", "input", "text", "request") and isinstance(v, str) and len(v) >= 8]
+        hist = rp.get("history")
+        if isinstance(hist, list) and hist:
+            keys.append(" | ".join(str(h) for h in hist))
+        return any(k in rq for k in keys for rq in dis_reqs)
+
     new_failing = [f for f in failing if f.get("signature") not in known_sigs]
+    promoted = [dict(f, promoted="known signature, but implementation and model disagree on this input")
+                for f in failing if f.get("signature") in known_sigs and on_disagreeing_input(f)]
+    new_failing += promoted
     seen_known = {}
     for f in failing:
         if f.get("signature") in known_sigs:
